@@ -78,7 +78,7 @@ theorem stepOK_seek (w : World) (hw : WFW w) (h : Nat) (off : Int) (origin : Nat
             else
               ((w.setFile a.file ((w.file a.file).convert a.slot a.blockSize a.numBlocks).1).setAcc h
                 { a with slot := ((w.file a.file).convert a.slot a.blockSize a.numBlocks).2, special := true, appendable := false,
-                         newElem := a.newElem && ((w.file a.file).dd a.slot).ext.isSome, posn := tgt.toNat }, .ok)
+                         newElem := false, posn := tgt.toNat }, .ok)
           else (w.setAcc h { a with posn := tgt.toNat }, .ok) := by
         simp only [step, hseek, ha]
         rw [if_neg horg, if_neg hsp]
@@ -115,10 +115,10 @@ theorem stepOK_seek (w : World) (hw : WFW w) (h : Nat) (off : Int) (origin : Nat
             by_cases e : h' = h
             · simp only [e, if_true, Option.some.injEq] at ha'
               subst ha'
-              exact ⟨hh.live, hh.user, hh.special_iff, hh.new_iff, hh.special_new, hh.blk⟩
+              exact ⟨hh.live, hh.user, hh.special_iff, hh.new_of_none, hh.special_new, hh.blk⟩
             · simp only [e, if_false] at ha'
               have := hw.handles h' a' ha'
-              exact ⟨this.live, this.user, this.special_iff, this.new_iff, this.special_new, this.blk⟩
+              exact ⟨this.live, this.user, this.special_iff, this.new_of_none, this.special_new, this.blk⟩
           · refine ⟨fun _ => rfl, fun _ _ _ => rfl, ?_⟩
             intro h'
             simp only [abs_hnd, acc_setAcc]
@@ -130,14 +130,7 @@ theorem stepOK_seek (w : World) (hw : WFW w) (h : Nat) (off : Int) (origin : Nat
           rw [hstep, if_neg h1, if_neg h2, if_pos h3, if_neg hwr]
           have halone := hsafe a ha hsp0 h3.1 (by rw [htgt]; exact h3.2.1) h3.2.2
           obtain ⟨hww, _, _, heqv⟩ := convert_world w hw h a ha hsp0 halone a.blockSize a.numBlocks hh.blk.1 hh.blk.2
-            tgt.toNat false (a.newElem && ((w.file a.file).dd a.slot).ext.isSome)
-            (by
-              cases hx : ((w.file a.file).dd a.slot).ext with
-              | none => simp
-              | some e =>
-                have : ¬ (a.newElem = true) := fun hn => by
-                  have := (hh.new_iff hsp0).mp hn; rw [hx] at this; exact absurd this (by simp)
-                simp [this])
+            tgt.toNat false false rfl
           by_cases hnone : (w.file a.file).slotBytes a.slot = none
           · refine ⟨hww, _, ?_, heqv⟩
             simp only [specStep, abs_hnd, ha, Option.map_some, he, hspec_t]
@@ -201,20 +194,12 @@ theorem stepOK_hlconvert (w : World) (hw : WFW w) (h blen nblk : Nat) (hsafe : O
       | true => simp [hs] at hc
     by_cases hc2 : (((w.file a.file).dd a.slot).ext.isNone && !a.canWrite) = true
     · exact stepOK_fail_same w hw _ (by simp only [step, hlconvert, ha]; rw [if_neg hc, if_pos hc2])
-    have hne : (a.newElem && ((w.file a.file).dd a.slot).ext.isSome) = false := by
-      cases hx : ((w.file a.file).dd a.slot).ext with
-      | none => simp
-      | some e =>
-        have : ¬ (a.newElem = true) := fun hn => by
-          have := (hh.new_iff hsp0).mp hn; rw [hx] at this; exact absurd this (by simp)
-        simp [this]
-    obtain ⟨hww, _, _, heqv⟩ := convert_world w hw h a ha hsp0 halone blen nblk hb hn a.posn false
-      (a.newElem && ((w.file a.file).dd a.slot).ext.isSome) hne
+    obtain ⟨hww, _, _, heqv⟩ := convert_world w hw h a ha hsp0 halone blen nblk hb hn a.posn false false rfl
     unfold StepOK
     have hstep : step w (.hlconvert h blen nblk) =
         ((w.setFile a.file ((w.file a.file).convert a.slot blen nblk).1).setAcc h
           { a with slot := ((w.file a.file).convert a.slot blen nblk).2, special := true, appendable := false,
-                   newElem := a.newElem && ((w.file a.file).dd a.slot).ext.isSome }, .ok) := by
+                   newElem := false }, .ok) := by
       simp only [step, hlconvert, ha]
       rw [if_neg hc, if_neg hc2]
     rw [hstep]
@@ -235,28 +220,28 @@ theorem stepOK_hlconvert (w : World) (hw : WFW w) (h blen nblk : Nat) (hsafe : O
             setHnd_same _ h _ (by simp [abs_hnd, ha])
           exact Eqv.trans (Eqv.symm h1) (Eqv.trans (Eqv.setHnd (Eqv.symm (setElem_same (abs w) a.file _ _ he)) h _) heqv)
 
-theorem stepOK_setlength (w : World) (hw : WFW w) (h len : Nat) (hsafe : OpSafe w (.setlength h len)) :
-    StepOK w (.setlength h len) := by
+theorem stepOKC_setlength (w : World) (hw : WFW w) (h len : Nat) (hfresh : Fresh w h) :
+    StepOKC w (.setlength h len) := by
   cases ha : w.acc h with
-  | none => exact stepOK_fail_same w hw _ (by simp [step, hsetlength, ha])
+  | none => exact stepOKC_fail_same w hw _ (by simp [stepC, hsetlengthCore, ha])
   | some a =>
     have hh := hw.handles h a ha
     have he := handle_elem w hw h a ha
     by_cases hnew : a.newElem = true
     · by_cases hcw : (!a.canWrite) = true
-      · exact stepOK_fail_same w hw _ (by simp only [step, hsetlength, ha]; rw [if_neg (by simp [hnew]), if_pos hcw])
+      · exact stepOKC_fail_same w hw _ (by simp only [stepC, hsetlengthCore, ha]; rw [if_neg (by simp [hnew]), if_pos hcw])
       have hsp0 : a.special = false := by
         cases hs : a.special with
         | false => rfl
         | true => have := hh.special_new hs; rw [hnew] at this; exact absurd this (by decide)
-      obtain ⟨hww, _, _, _, _, heqv⟩ := setLength_world w hw h a ha hsp0 hnew hsafe len a.appendable
-      have hstep : step w (.setlength h len) =
+      obtain ⟨hww, _, _, _, _, heqv⟩ := setLength_world w hw h a ha hsp0 (hfresh a ha hnew hsp0) len a.appendable
+      have hstep : stepC w (.setlength h len) =
           ((w.setFile a.file ((w.file a.file).setLength a.slot len).1).setAcc h { a with newElem := false }, .ok) := by
-        simp only [step, hsetlength, ha]
+        simp only [stepC, hsetlengthCore, ha]
         rw [if_neg (by simp [hnew]), if_neg hcw]
-      unfold StepOK
+      unfold StepOKC
       rw [hstep]
-      have hx : ((w.file a.file).dd a.slot).ext = none := (hh.new_iff hsp0).mp hnew
+      have hx : ((w.file a.file).dd a.slot).ext = none := hfresh a ha hnew hsp0
       have hsp' : isSpecial ((w.file a.file).dd a.slot).tag = false := by rw [← hh.special_iff]; exact hsp0
       rw [slotBytes_plain _ _ hsp', hx] at he
       refine ⟨hww, (abs w).setElem a.file ((w.file a.file).keyOf a.slot) (some (some (zeros len))), ?_, ?_⟩
@@ -267,7 +252,13 @@ theorem stepOK_setlength (w : World) (hw : WFW w) (h len : Nat) (hsafe : OpSafe 
             ((abs w).setElem a.file ((w.file a.file).keyOf a.slot) (some (some (zeros len)))) :=
           setHnd_same _ h _ (by simp [View.setElem, abs_hnd, ha])
         exact Eqv.trans (Eqv.symm h1) heqv
-    · exact stepOK_fail_same w hw _ (by simp only [step, hsetlength, ha]; rw [if_pos (by simp [hnew])])
+    · exact stepOKC_fail_same w hw _ (by simp only [stepC, hsetlengthCore, ha]; rw [if_pos (by simp [hnew])])
+
+/-- **`Hsetlength`**: `HIrefresh_new`, then the allocation. No side condition: a second id on the element simply finds
+    it sized (7f7ac10). -/
+theorem stepOK_setlength (w : World) (hw : WFW w) (h len : Nat) : StepOK w (.setlength h len) :=
+  stepOK_of_core w hw h (.setlength h len) rfl
+    (stepOKC_setlength (w.refresh h) (refresh_spec w hw h).1 h len (refresh_spec w hw h).2.2.1)
 
 /-! ### `Happendable`, `HLsetblockinfo`, `Hendaccess` -/
 
@@ -288,12 +279,12 @@ theorem flags_ok (w : World) (hw : WFW w) (h : Nat) (a a' : Acc) (ha : w.acc h =
       · show (w.file a'.file).live a'.slot; rw [e1, e2]; exact hh.live
       · show UserKey ((w.file a'.file).keyOf a'.slot); rw [e1, e2]; exact hh.user
       · show a'.special = isSpecial ((w.file a'.file).dd a'.slot).tag; rw [e1, e2, e4]; exact hh.special_iff
-      · show a'.special = false → (a'.newElem = true ↔ ((w.file a'.file).dd a'.slot).ext = none)
-        rw [e1, e2, e4, e5]; exact hh.new_iff
+      · show a'.special = false → ((w.file a'.file).dd a'.slot).ext = none → a'.newElem = true
+        rw [e1, e2, e4, e5]; exact hh.new_of_none
       · rw [e4, e5]; exact hh.special_new
     · simp only [e, if_false] at ha''
       have := hw.handles h' a'' ha''
-      exact ⟨this.live, this.user, this.special_iff, this.new_iff, this.special_new, this.blk⟩
+      exact ⟨this.live, this.user, this.special_iff, this.new_of_none, this.special_new, this.blk⟩
   · refine ⟨fun _ => rfl, fun _ _ _ => rfl, ?_⟩
     intro h'
     simp only [abs_hnd, acc_setAcc]
